@@ -202,6 +202,9 @@ func runCheck(o *Options) int {
 		}
 	}
 	v.discharge(mine, qdir, o.timeout, o.tier == "thorough", o.jobs)
+	if o.tier == "thorough" || os.Getenv("GOVC_COVER") != "" {
+		v.unreachable = v.coverCheck(mine, qdir, o.jobs)
+	}
 	return report(o, p, v, keys, mine, start)
 }
 
